@@ -18,4 +18,4 @@ one() {
   echo "$id $(awk '{print $1}' "$out" | sort -u | tr '\n' ' ')"
 }
 export -f one
-ls -d "$1"/C* | xargs -P 5 -I{} bash -c 'one {}' | sort
+ls -d "$1"/C* | xargs -P ${PAR:-5} -I{} bash -c 'one {}' | sort
